@@ -116,9 +116,11 @@ func (pass *ReplaceReference) replaceInDisjunction(visitor *Visitor, schema *ast
 func (pass *ReplaceReference) processStruct(visitor *Visitor, schema *ast.Schema, def ast.Type) (ast.Type, error) {
 	// hints can be set by users: the value isn't necessarily a disjunction.
 	// It goes first: its mapping designates the branches by their current name.
-	if disjunction, ok := def.Hints[ast.HintDiscriminatedDisjunctionOfRefs].(ast.DisjunctionType); ok {
-		if err := pass.replaceInDisjunction(visitor, schema, &disjunction); err != nil {
-			return ast.Type{}, err
+	for _, hint := range disjunctionHints {
+		if disjunction, ok := def.Hints[hint].(ast.DisjunctionType); ok {
+			if err := pass.replaceInDisjunction(visitor, schema, &disjunction); err != nil {
+				return ast.Type{}, err
+			}
 		}
 	}
 
